@@ -56,7 +56,9 @@ def inode_text(draw, level, framers=(), frames=(), allow_implicit=True):
     level: 'framer' | 'frame' | 'aux' | 'do'. Frame/actor relations are only generated at do
     level (they need an act context that every act of the framer/frame would have to supply).
     """
-    kind = draw(st.sampled_from(["rel", "rel.", "abs", "abs.", "me", "rel", "of"]))
+    # the relation forms carry the optional trailing words (`of framer [name]`, `of frame [name]`,
+    # `of actor [name]`) that are most exposed to the clause that follows, so they get 3 of 8 draws
+    kind = draw(st.sampled_from(["rel", "rel.", "abs", "abs.", "me", "of", "of", "of"]))
     if kind == "rel":
         return draw(relpath())
     if kind == "rel.":
@@ -69,9 +71,9 @@ def inode_text(draw, level, framers=(), frames=(), allow_implicit=True):
         return "me." + draw(relpath())
     # relation forms
     path = draw(relpath(1)) + draw(st.sampled_from(["", "."]))
-    rels = ["root", "framer"]
+    rels = ["root", "framer", "framer"]
     if level == "do":
-        rels += ["frame", "actor", "me"]
+        rels += ["frame", "frame", "frame", "actor", "me"]
     rel = draw(st.sampled_from(rels))
     text = path + " of " + rel
     if rel == "framer":
@@ -173,12 +175,12 @@ def source_text(draw, share, fields, framers=(), frames=()):
     if draw(st.booleans()):
         k = draw(st.integers(1, len(fields)))
         t = " ".join(draw(st.permutations(fields))[:k]) + " in "
-    form = draw(st.sampled_from(["abs", "abs", "rel", "relof"]))
+    form = draw(st.sampled_from(["abs", "abs", "rel", "relof", "relof"]))
     if form == "abs":
         return t + share
     if form == "rel":
         return t + draw(relpath(2, SHAREW))
-    rel = draw(st.sampled_from(["root", "framer", "frame", "me"]))
+    rel = draw(st.sampled_from(["root", "framer", "frame", "frame", "me"]))
     s = t + draw(relpath(1, SHAREW)) + " of " + rel
     if rel == "framer" and framers and draw(st.booleans()):
         s += " " + draw(st.sampled_from(list(framers)))
@@ -643,7 +645,31 @@ def small_program(draw):
         lines.append([6, ["go", "next", "if", "recurred", ">=", "2"]])
         lines.append([4, ["frame", "ax1"]])
         lines.append([6, ["done"]])
+    # user chosen names may be spelled like verbs (only connectives and comparisons are reserved): half of the
+    # programs have one to three of their frame / relative share names consistently replaced by verb words
+    if draw(st.booleans()):
+        present = []
+        for ind, toks in lines:
+            for t in toks:
+                if t not in present and (t in RENAMEABLE or (toks[0] == "frame" and t == toks[1])):
+                    present.append(t)
+        k = min(len(present), draw(st.integers(1, 3)))
+        olds = list(draw(st.permutations(present)))[:k]
+        news = list(draw(st.permutations(VERB_NAMES)))
+        if draw(st.booleans()):     # `load` is the one verb the continuation look-ahead of Builder.build singles out
+            news.remove("load")
+            news.insert(0, "load")
+        news = news[:k]
+        ren = dict(zip(olds, news))
+        lines = [[ind, [ren.get(t, t) for t in toks]] for ind, toks in lines]
     return {"lines": lines, "logger": has_logger}
+
+
+# verbs that are legal as frame names / share path segments (connectives and comparisons are the only reserved words)
+VERB_NAMES = ["load", "house", "init", "print", "put", "inc", "copy", "set", "go", "let", "do", "done", "log", "loggee",
+              "logger", "server", "timeout", "repeat", "bid", "ready", "start", "stop", "run", "abort", "rear", "raze",
+              "native", "enter", "recur", "exit", "over", "under"]
+RENAMEABLE = ["rva", "rsa", "rfa"]
 
 
 def canonical_text(lines):
